@@ -133,6 +133,9 @@ func main() {
 			d := &Discharger{Dir: *keep, Timeout: *timeout, Workers: 12}
 			d.Run(r.Obls)
 			for _, o := range r.Obls {
+				if o.Slow && *timeout < 60 {
+					continue
+				}
 				status := o.Res.Answer
 				okay := status == "unsat"
 				if o.IsCanary {
